@@ -110,7 +110,7 @@ func (w *c17World) step(i int, faulty bool) bool {
 	ctx := context.Background()
 	ev, k := 0, 0
 	if !faulty {
-		ev = vr.Choose(vs.Name("event", i), 6)
+		ev = vr.Choose(vs.Name("event", i), vr.Bound("eventKinds", 5, 6)) // the periodic sync (kind 5) is thorough-tier: every history ends with a sync anyway
 		if w.npod > 1 && ev != 1 && ev != 5 {
 			k = vr.Choose(vs.Name("which", i), w.npod)
 		}
@@ -121,7 +121,7 @@ func (w *c17World) step(i int, faulty bool) bool {
 		if _, ok := w.st.BindRequests[brKey]; !ok {
 			return false
 		}
-		w.st.FaultsOn, w.st.CrashesOn = faulty, faulty
+		w.st.FaultsOn, w.st.CrashesOn = faulty, faulty && vr.Bound("crashPoints", 0, 1) == 1 // crash points: thorough tier (C11 explores them in quick)
 		crashedNow := false
 		func() {
 			defer func() {
@@ -196,7 +196,7 @@ func (w *c17World) step(i int, faulty bool) bool {
 // pod starts, completions, deletions, BindRequest deletions and syncs over fractional pods sharing
 // GPU groups, through the real BindRequest reconciler, Binder, reservation service, gpusharing plugin
 // and pod-controller event handlers; then the sync that follows.
-// BOUND: 2 fractional pods (the second on the first's group or another one), 1 node; histories of 3 (quick) / 4 (thorough) events, the first being the reconcile of the first pod's BindRequest disturbed by at most 1 API failure or crash (solver-chosen call), the others fault-free; sequential (no concurrent reconciles, the group mutex is not exercised)
+// BOUND: 2 fractional pods (the second on the first's group or another one), 1 node; histories of 3 (quick) / 4 (thorough) events, the first being the reconcile of the first pod's BindRequest disturbed by at most 1 API failure (quick) / API failure or crash (thorough) at a solver-chosen call, the others fault-free; sequential (no concurrent reconciles, the group mutex is not exercised)
 func VerifC17_ReservationTracksUsage() {
 	vr.SetMaxFaults(1)
 	w := newC17World(2)
